@@ -4,7 +4,7 @@ import re
 from .. import witness
 from ..build import AnalysisBroken
 
-UNITS = ['client/QXmppSaslManager.cpp', 'base/QXmppSasl.cpp']
+UNITS = ['client/QXmppSaslManager.cpp', 'base/QXmppSasl.cpp', 'client/QXmppOutgoingClient.cpp']
 NS = 'QXmpp::Private::'
 
 
@@ -53,6 +53,7 @@ def run(prog, run):
     r5(prog, run)
     r6(prog, run)
     r7(prog, run)
+    r8(prog, run)
 
 
 def r1(prog, run):
@@ -651,3 +652,81 @@ def r7(prog, run):
                 run.ok(rid, f.loc(i), '%s: local copy of the offered list, only extended' % f.outer_name().split('::')[-1])
     if seen < 2:
         raise AnalysisBroken('C05.R7: callers of initSaslAuthentication / chooseMechanism not found')
+
+
+# --------------------------------------------------------------------------- R8: a failed SASL attempt ends in the error report
+def r8(prog, run):
+    from .. import cfgx
+    from . import C02
+    rid = run.rule('C05.R8', 'where the client consumes the outcome of SASL / SASL2 authentication, every path for an outcome other than success reports the error and installs no '
+                             'new stream listener (no other authentication is started behind a mechanism mismatch: iq-auth would send the password the disabled-PLAIN policy withholds)',
+                   floor=2)
+    field, vals, ptrs, replaces_listener, rec = C02.listener_model(prog)
+    errf = [fl for fl in rec['fields'] if re.match(r'std::optional<.*>$', fl.get('t') or '') and (fl['t'][14:-1].split('::')[-1]).endswith('Error')]
+    if len(errf) != 1:
+        raise AnalysisBroken('C05.R8: the stored connection error of %s was not identified' % rec['qname'])
+    errq = errf[0].get('qname') or rec['qname'] + '::' + errf[0]['name']
+    wr = {}
+
+    def writes_error(g, depth=0):
+        if g.id in wr:
+            return wr[g.id]
+        wr[g.id] = False
+        r = any(h.nodes[h.skip(n['l'])].get('f') == errq for h in prog.closure(g) for _, n in h.all_nodes('assign'))
+        r = r or any(n.get('op') == '=' and n.get('opargs') and h.nodes[h.skip(n['opargs'][0])].get('f') == errq for h in prog.closure(g) for _, n in h.calls())
+        r = r or any((h.sym(n) or {}).get('name') == 'emplace' and n.get('obj') is not None and h.nodes[h.skip(n['obj'])].get('f') == errq for h in prog.closure(g) for _, n in h.calls())
+        if not r and depth < 3:
+            r = any(c.entry is not None and writes_error(c, depth + 1) for h in prog.closure(g) for _, n in h.calls() for c in prog.callee_fns(h, n))
+        wr[g.id] = r
+        return r
+    sasl = [v for v in vals if 'Sasl' in v.split('::')[-1] and 'NonSasl' not in v]
+    if len(sasl) < 2:
+        raise AnalysisBroken('C05.R8: SASL listeners not found among %s' % vals)
+    n_sites = 0
+    for v, f, i, lams in C02.listener_continuations(prog, sasl):
+        for lam in lams:
+            n_sites += 1
+            run.instance(rid)
+
+            def custom(g, nid, st):
+                n = g.nodes[nid]
+                if n['k'] == 'call':
+                    cn = g.cname(n) or ''
+                    first = ((g.sym(n) or {}).get('targs') or '').split(',')[0]
+                    if cn == 'std::holds_alternative' and re.search(r'\bSuccess\b', first):
+                        return (False,)
+                    if cn == 'std::get_if' and re.search(r'\bSuccess\b', first):
+                        return (False,)             # a null pointer, known by its truth value
+                return None
+            ev = cfgx.Evaluator(lam, {}, custom=custom)
+
+            def transfer(g, nid, st):
+                n = g.nodes[nid]
+                if n['k'] != 'call' or n.get('op'):
+                    return None
+                out = st
+                for c in prog.callee_fns(g, n):
+                    if c.entry is None:
+                        continue
+                    if writes_error(c) and 'E' not in out:
+                        out = out + ('E',)
+                    if replaces_listener(c) and not any(isinstance(x, tuple) for x in out):
+                        out = out + (('L', nid),)
+                return out if out != st else None
+            exits, _ = cfgx.explore(lam, (), transfer, lambda g, c, st: ev.ev(c, st), max_states=20000)
+            bad = None
+            for st, wit in exits.items():
+                ls = [x for x in st if isinstance(x, tuple)]
+                if ls:
+                    bad = ('installs a new stream listener (%s)' % lam.fmt(ls[0][1], inline=False)[:60], wit, ls[0][1])
+                    break
+                if 'E' not in st:
+                    bad = ('returns without reporting the error', wit, None)
+            if bad:
+                run.violation(rid, '%s#%s#failure-path' % (f.outer_name(), v.split('::')[-1]), lam.loc(bad[2]) if bad[2] is not None else lam.loc(),
+                              'the continuation of %s::authenticate in %s %s on a path where the outcome is not success: the mismatch / failure is not what the caller gets to see'
+                              % (v.split('::')[-1], f.display()[:50], bad[0]), cfgx.describe_path(lam, bad[1]))
+            else:
+                run.ok(rid, lam.loc(), 'failure outcome of %s: error stored, no listener installed, on %d path(s)' % (v.split('::')[-1], len(exits)))
+    if n_sites < 2:
+        raise AnalysisBroken('C05.R8: continuations of the SASL listeners not found')
